@@ -162,6 +162,19 @@ Theorem C07_input_error_whole : forall A (cr : A -> str -> res sres) solve c ans
   check cr solve c answers s = inr (ErrMissing (blank_positions (items_of c s))).
 Proof. exact slg_check_input_error. Qed.
 
+(* the grade reported by the whole grader (all alternative lists) is invariant under permuting the submitted items *)
+Theorem C07_permutation_invariant_whole : forall A (cr : A -> str -> res sres) solve, solver_optimal solve ->
+  forall c answers d items items' r r', c_delim c = [d] -> items <> [] -> Forall (fun it => ~ In d it) items ->
+    valid_answers cr answers -> c_ordered c = false -> Permutation items items' ->
+    check cr solve c answers (join [d] items) = inl r -> check cr solve c answers (join [d] items') = inl r' ->
+    sr_grade r == sr_grade r'.
+Proof. exact slg_check_perm_invariant. Qed.
+
+(* what grader(expect, input) hands back: the grade, ok derived from it, the message with <br/> line breaks *)
+Theorem C07_reported_entry : forall r, e_grade (to_entry r) = sr_grade r /\ e_ok (to_entry r) = grade_to_ok (sr_grade r) /\
+  e_msg (to_entry r) = format_msg (sr_msg r).
+Proof. exact to_entry_spec. Qed.
+
 (* ---------------- one level of nesting ---------------- *)
 Theorem C07_nested_grade_formula : forall A (cr : A -> str -> res sres) co ci answers s r,
   valid_nested A cr answers -> nested_check cr solveZ co ci answers s = inl r ->
